@@ -135,14 +135,27 @@ def gen_case(rng):
     if rng.random() < 0.3:
         target = {"compiler": str(rng.choice(["gaussian", "fock", "bosonic"])), "shots": int(rng.choice([1, 5, 100])),
                   "cutoff_dim": int(rng.choice([5, 8]))}
-    return {"n": n, "cmds": cmds, "target": target, "format": str(rng.choice(["blackbird", "xir", "blackbird-file", "xir-file"])),
+    case = {"n": n, "cmds": cmds, "target": target, "format": str(rng.choice(["blackbird", "xir", "blackbird-file", "xir-file"])),
             "hbar": float(rng.choice([2.0, 2.0, 2.0, 1.0]))}
+    if rng.random() < 0.3:
+        # the same program on a sparse choice of subsystems of a large register (two- and three-digit indices, logical
+        # order different from index order): subsystem indices are part of what the formats must preserve
+        N = int(rng.choice([n + 1, 11, 13, 24, 101, 120]))
+        if N > n:
+            case["N"] = N
+            emb = [int(x) for x in rng.choice(N, n, replace=False)]
+            if N >= 11 and max(emb) < 10:
+                emb[int(rng.integers(n))] = int(rng.integers(10, N))
+            case["embed"] = emb
+    return case
 
 
 def build(env, case):
     sf, ops = env["sf"], env["ops"]
-    prog = sf.Program(case["n"], name="prog")
-    with prog.context as q:
+    emb = case.get("embed") or list(range(case["n"]))
+    prog = sf.Program(case.get("N", case["n"]), name="prog")
+    with prog.context as q_:
+        q = [q_[i] for i in emb]
         for c in case["cmds"]:
             p = [jdec(x) for x in c["p"]]
             kw = {k: jdec(v) for k, v in c.get("kw", {}).items()}
@@ -337,7 +350,12 @@ def run_case(case, rep, env):
                 case = dict(case, target=None)
                 P = build(env, case)
         feats = any(c.get("dag") or c.get("sym") or c.get("kw") or any(isinstance(x, dict) for x in c["p"]) for c in case["cmds"])
-        rep.case([rnd(case["cmds"], 5), fmt, case.get("target"), case.get("hbar")], len(case["cmds"]) >= 3 and feats,
+        if case.get("embed"):
+            rep.observe("register:sparse-embedding")
+            rep.seen("digits-of-largest-subsystem-index", str(len(str(max(case["embed"])))))
+            if any(c.get("sym", {}).get("kind") == "meas" and case["embed"][c["sym"]["mode"]] >= 10 for c in case["cmds"]):
+                rep.observe("measured-parameter-of-subsystem>=10")
+        rep.case([rnd(case["cmds"], 5), fmt, case.get("target"), case.get("hbar"), case.get("embed")], len(case["cmds"]) >= 3 and feats,
                  sample={k: v for k, v in case.items()} if rep.evaluations % 149 == 11 else None)
         rep.monitor("roundtrip:" + ("xir" if fmt.startswith("xir") else "blackbird"))
         if fmt.endswith("file"):
